@@ -111,10 +111,18 @@ func jsonCmd(args []string) error {
 			for i, x := range c["ins"].([]interface{}) {
 				im := x.(map[string]interface{})
 				if im["prev"].(bool) {
-					addInput(tx, byte(0x50+i), uint32(i), 5000, own)
+					tag := byte(0x50 + i)
+					if ci%3 == 2 {
+						tag = 0 // an all-zero previous txid (what a coinbase has) on a built transaction
+					}
+					addInput(tx, tag, uint32(i), 5000, own)
 				} else {
-					in := &bt.Input{PreviousTxOutIndex: uint32(i), SequenceNumber: 0xfffffffe}
-					_ = in.PreviousTxIDAdd(bytes.Repeat([]byte{byte(0x60 + i)}, 32))
+					in := &bt.Input{PreviousTxOutIndex: uint32(i), SequenceNumber: []uint32{0xfffffffe, 0xffffffff}[ci%2]}
+					tag := byte(0x60 + i)
+					if ci%3 == 2 {
+						tag = 0
+					}
+					_ = in.PreviousTxIDAdd(bytes.Repeat([]byte{tag}, 32))
 					tx.Inputs = append(tx.Inputs, in)
 				}
 			}
